@@ -33,6 +33,11 @@ def main() -> int:
             if a.replay:
                 return rx_check.replay(a.prop, a.replay)
             return rx_check.run_check(a.prop, a.tier)
+        if a.prop in ("C17", "C18"):
+            from engine import pm_check
+            if a.replay:
+                return pm_check.replay(a.prop, a.replay)
+            return pm_check.run_check(a.prop, a.tier)
         if a.prop == "C15":
             from engine import sch_check
             if a.replay:
